@@ -211,6 +211,63 @@ Definition idx_list (l : list value) (i : Z) : option value :=
 
 Definition strv (v : value) : option (bool * list Z) := match v with VStr b s => Some (b, s) | _ => None end.
 
+
+(* ---- safety-aware string filters (filters.rs: replace, join, format; value/argtypes.rs: StringInput) ---- *)
+Fixpoint prefix_b (p s : list Z) : bool :=
+  match p, s with
+  | [], _ => true
+  | a :: p', b :: s' => (a =? b) && prefix_b p' s'
+  | _ :: _, [] => false
+  end.
+
+(* str::replace for a non-empty needle: non-overlapping matches, left to right;
+   [skip] = characters of the current match still to be dropped *)
+Fixpoint replace_go (needle rep : list Z) (skip : nat) (h : list Z) : list Z :=
+  match h with
+  | [] => []
+  | ch :: r =>
+      match skip with
+      | S k => replace_go needle rep k r
+      | O => if prefix_b needle h then rep ++ replace_go needle rep (length needle - 1) r
+             else ch :: replace_go needle rep 0 r
+      end
+  end.
+Definition replace_s (h needle rep : list Z) : list Z :=
+  match needle with
+  | [] => rep ++ flat_map (fun ch => ch :: rep) h       (* an empty pattern matches between all characters *)
+  | _ => replace_go needle rep 0 h
+  end.
+
+Fixpoint join_with (sep : list Z) (l : list (list Z)) : list Z :=
+  match l with
+  | [] => []
+  | [x] => x
+  | x :: r => x ++ sep ++ join_with sep r
+  end.
+
+(* StringInput: the string a value is coerced to, with its safe bit; undefined is rejected under the strict modes *)
+Definition str_input (m : ubehav) (v : value) : outcome (bool * list Z) :=
+  if u_strictish m && is_strict_undef v then Err E_UndefinedError
+  else Ok (match v with VStr b s => (b, s) | _ => (false, show v) end).
+(* StringInput::format: safe input unchanged, anything else escaped like the escape filter does *)
+Definition fmt_in (i : bool * list Z) : list Z := if fst i then snd i else html_escape (snd i).
+Definition is_safe_v (v : value) : bool := match v with VStr true _ => true | _ => false end.
+
+(* printf-style formatting, modelled fragment: literal text, %% and %s (flags, widths and the other
+   conversions are outside the fragment: None); surplus arguments are ignored *)
+Fixpoint printf_s (conv : value -> list Z) (fmt : list Z) (args : list value) : option (list Z) :=
+  match fmt with
+  | [] => Some []
+  | 37 :: 37 :: r => option_map (cons 37) (printf_s conv r args)
+  | 37 :: 115 :: r =>
+      match args with
+      | a :: args' => option_map (app (conv a)) (printf_s conv r args')
+      | [] => None
+      end
+  | 37 :: _ => None
+  | ch :: r => option_map (cons ch) (printf_s conv r args)
+  end.
+
 (* filters.rs for the filters of the fragment.  [esc]: auto-escaping currently on. *)
 Definition do_filter (m : ubehav) (esc : bool) (f : name) (v : value) (args : list value) : outcome value :=
   if f =? F_length then
@@ -258,6 +315,77 @@ Definition do_filter (m : ubehav) (esc : bool) (f : name) (v : value) (args : li
     match v with VList (x :: _) => Ok x | VList [] => Ok VUndef | _ => Err E_InvalidOperation end
   else if f =? F_last then
     match v with VList l => Ok (match rev l with x :: _ => x | [] => VUndef end) | _ => Err E_InvalidOperation end
+  else if f =? F_replace then
+    (* replace(value, from, to): all three are StringInputs; safety-aware as soon as one of them is safe *)
+    bind (str_input m v) (fun vi =>
+    match args with
+    | [] => Err E_MissingArgument
+    | a1 :: rest =>
+        bind (str_input m a1) (fun fi =>
+        match rest with
+        | [] => Err E_MissingArgument
+        | a2 :: rest2 =>
+            bind (str_input m a2) (fun ti =>
+            match rest2 with
+            | [] =>
+                if esc && (fst vi || fst fi || fst ti)
+                then Ok (VStr true (replace_s (fmt_in vi) (snd fi) (fmt_in ti)))
+                else Ok (VStr false (replace_s (snd vi) (snd fi) (snd ti)))
+            | _ :: _ => Err E_TooManyArguments
+            end)
+        end)
+    end)
+  else if f =? F_join then
+    match args with
+    | _ :: _ :: _ => Err E_TooManyArguments
+    | _ =>
+        (* Option<StringInput>: undefined / none = no joiner *)
+        let joiner := match args with
+                      | [] => None
+                      | a :: _ => match a with
+                                  | VUndef | VSilent | VNone => None
+                                  | VStr b s => Some (b, s)
+                                  | _ => Some (false, show a)
+                                  end
+                      end in
+        bind (match v with
+              | VList l => Ok l
+              | VStr _ s => Ok (map (fun ch => VStr false [ch]) s)      (* a string iterates over its characters *)
+              | VUndef | VSilent | VNone => Ok []
+              | _ => Err E_InvalidOperation
+              end) (fun items =>
+        let jstr := match joiner with Some j => snd j | None => [] end in
+        let plain := join_with jstr (map show items) in
+        if negb esc then Ok (VStr false plain)
+        else if (match joiner with Some j => fst j | None => false end)
+        then Ok (VStr true (join_with jstr (map (render_value true) items)))
+        else if existsb is_safe_v items
+        then Ok (VStr true (join_with (match joiner with Some j => fmt_in j | None => [] end) (map (render_value true) items)))
+        else Ok (VStr false plain))
+    end
+  else if f =? F_format then
+    match v with
+    | VStr sf s =>
+        (* a safe format string escapes its unsafe non-numeric arguments and yields a safe string *)
+        match printf_s (fun a => if sf then match a with
+                                            | VStr true t => t
+                                            | VBool _ | VInt _ => show a
+                                            | _ => html_escape (show a)
+                                            end
+                                 else show a) s args with
+        | Some r => Ok (VStr sf r)
+        | None => Err E_InvalidOperation
+        end
+    | _ => Err E_InvalidOperation
+    end
+  else if f =? F_list then
+    match v with
+    | VList l => Ok (VList l)
+    | VStr _ s => Ok (VList (map (fun ch => VStr false [ch]) s))
+    | VUndef => if u_strictish m then Err E_InvalidOperation else Ok (VList [])
+    | VSilent | VNone => Ok (VList [])
+    | _ => Err E_InvalidOperation
+    end
   else Err E_UnknownFilter.
 
 Definition do_test (t : name) (v : value) : outcome bool :=
